@@ -196,9 +196,10 @@ def check_nlsat(formulas, timeout_s):
     return "unknown", None
 
 
-def _in_child(fn, timeout_s):
+def _in_child(fn, timeout_s, stop=None):
     """run fn() in a forked child with a hard wall-clock limit (z3's own timeout is not always honoured
-    inside nonlinear preprocessing); returns fn's JSON-able result or ("timeout", None)"""
+    inside nonlinear preprocessing); returns fn's JSON-able result or ("timeout", None).  `stop()` is polled twice a second:
+    when it turns true (another back end of the portfolio has answered) the child is killed and ("stopped", None) returned."""
     import json
     import select
     import signal
@@ -224,8 +225,14 @@ def _in_child(fn, timeout_s):
             if left <= 0:
                 os.kill(pid, signal.SIGKILL)
                 return "timeout", None
-            rd, _, _ = select.select([r], [], [], left)
+            rd, _, _ = select.select([r], [], [], left if stop is None else min(left, 0.5))
             if not rd:
+                if stop is not None:
+                    if stop():
+                        os.kill(pid, signal.SIGKILL)
+                        return "stopped", None
+                    if deadline - time.time() > 0:
+                        continue
                 os.kill(pid, signal.SIGKILL)
                 return "timeout", None
             chunk = os.read(r, 1 << 16)
@@ -283,15 +290,35 @@ def check_formulas(formulas, timeout_s=10, want_model=True, second=True):
         return "unsat", None, "z3-5.1", (time.time() - t0) * 1000
     if r == z3.sat:
         return "sat", (_model_dict(s.model()) if want_model else None), "z3-5.1", (time.time() - t0) * 1000
+    # portfolio: cvc5 works on the same query while the z3 attempts run (a query that z3 5.1 gives up on after its whole budget was
+    # often answered by cvc5 in seconds: sequential fall-back made such obligations slow and sensitive to machine load)
+    cv = {}
+    th = None
+    smt2 = None
+    if second and timeout_s >= 4:
+        import threading
+        smt2 = to_smt2(formulas)
+
+        def _cv():
+            cv["r"] = run_cli(["/usr/bin/cvc5", "--tlimit", str(int(timeout_s * 1000))], smt2, timeout_s)
+        th = threading.Thread(target=_cv, daemon=True)
+        th.start()
     for name, fn, tl in attempts:
-        res, model = _in_child(fn, tl + 2)
+        res, model = _in_child(fn, tl + 2, stop=(lambda: cv.get("r") == "unsat") if th is not None else None)
         if res == "unsat":
             return "unsat", None, name, (time.time() - t0) * 1000
         if res == "sat":
             return "sat", model, name, (time.time() - t0) * 1000
+        if res == "stopped":
+            return "unsat", None, "cvc5-1.0.3", (time.time() - t0) * 1000
     if second:
-        smt2 = to_smt2(formulas)
-        res = run_cli(["/usr/bin/cvc5", "--tlimit", str(int(timeout_s * 1000))], smt2, timeout_s)
+        if smt2 is None:
+            smt2 = to_smt2(formulas)
+        if th is not None:
+            th.join(timeout_s + 6)
+            res = cv.get("r", "unknown")
+        else:
+            res = run_cli(["/usr/bin/cvc5", "--tlimit", str(int(timeout_s * 1000))], smt2, timeout_s)
         if res == "unsat":
             return "unsat", None, "cvc5-1.0.3", (time.time() - t0) * 1000
         res = run_cli(["/usr/bin/z3", f"-T:{int(timeout_s)}"], smt2, timeout_s)
